@@ -81,3 +81,37 @@ func uninlineStorableIfNeeded(storage SlabStorage, storable Storable) (Storable,
 
 	return storable, emptyValueID, false, nil
 }
+
+// isInlinedSlabOfValue returns true if given storable is (or wraps) the
+// inlined slab of the container that given value is (or wraps).  This is the
+// case when a container is assigned to the slot it already occupies: the
+// "overwritten" element and the new element are the same inlined slab.
+func isInlinedSlabOfValue(storable Storable, value Value) bool {
+	if storable == nil {
+		return false
+	}
+
+	var slabID SlabID
+
+	switch s := unwrapStorable(storable).(type) {
+	case ArraySlab:
+		if !s.Inlined() {
+			return false
+		}
+		slabID = s.SlabID()
+
+	case MapSlab:
+		if !s.Inlined() {
+			return false
+		}
+		slabID = s.SlabID()
+
+	default:
+		return false
+	}
+
+	unwrappedValue, _ := unwrapValue(value)
+
+	v, ok := unwrappedValue.(mutableValueNotifier)
+	return ok && v.ValueID() == slabIDToValueID(slabID)
+}
